@@ -403,7 +403,11 @@ func (w *world) checkRtspConsumer(a *attached) *pbt.Violation {
 		seen := map[string]bool{}
 		curInc := k
 		for si, ssrc := range order {
-			lenient := multi && si > 0 // packets of a successor the session description was not made for
+			// a consumer that stayed into a later incarnation may see packets its session description was not made for
+			// (other codec, silent AAC of the dummy-audio filter) on any source, also on the first one it receives
+			// anything from: only recognised units are judged then
+			lenient := multi
+			_ = si
 			var seg []*rtpref.Packet
 			for _, pk := range pkts {
 				if pk.SSRC == ssrc {
